@@ -7,7 +7,7 @@ LEMMAS = (["C03.any_decode[%d tags]" % n for n in range(6)]
           + ["C03.rep_roundtrip[choice %s, any %s]" % (a, e) for a in (None, 'num', 'flag', 'inner') for e in (None, 'atomic', 'constructed')]
           + ["C03.namevalue_roundtrip"])
 MIN_OBLIGATIONS = 60
-BOUNDED = None
+BOUNDED = "bounded.c03"
 ASSUMPTIONS = [
     "the deductive part verifies the library's *generic* constructed-data code (Sequence.encode / decode, Choice, SequenceOf, Any, and the hand-written NameValue decoder) on a representative type that has every element kind the code distinguishes (spec.rep_types.Rep), for every presence pattern, every choice alternative, lists of 0..2 items and symbolic leaf values; the 58 service PDUs and ~170 base types are instances of that code differing in their element tables only, and are swept natively by the bounded stage",
     "equality of octets follows from equality of tags (class, number, length, data) because TagList.encode is a function of those fields (C02)",
